@@ -117,6 +117,10 @@ def acceptor(hist, io):
                 ordinary[refdict.key_canon(op['k'])] = codec.render_val(op['v'])
         elif m in ('delete', 'delitem', 'pop'):
             ordinary.pop(refdict.key_canon(op['k']), None)
+        elif m in ('add', 'incr', 'touch'):
+            # conditional writes on ordinary keys: judged by the specification run (qsop), not tracked here
+            ordinary.pop(refdict.key_canon(op['k']), None)
+            untracked.add(refdict.key_canon(op['k']))
         elif m == 'get':
             want = ordinary.get(refdict.key_canon(op['k']), 'D')
             if res != want and refdict.key_canon(op['k']) not in untracked:
@@ -202,8 +206,8 @@ QSPEC_ORDINARY = ['a-1', 'zz', b'a', (1, 2), 'a-5-x', 'a-']          # none has 
 
 
 def qspec_history(rng, length):
-    """a history inside the regime of the Lean theorem DC.Cache.qrun_refines_partial: push / pull / peek on
-    any prefix and side mixed with set / get / in / pop / del / delete on ordinary keys and the bulk
+    """a history inside the regime of the Lean theorem DC.Cache.qrun_refines: push / pull / peek on
+    any prefix and side mixed with set / add / touch / incr / get / in / pop / del / delete on ordinary keys and the bulk
     removals; policy none; either cull_limit 0 (then pushed items may expire) or no ttl on pushes"""
     cfg = gen.gen_cfg(rng)
     cfg['mfs'] = rng.choice([8, 16])
@@ -229,9 +233,17 @@ def qspec_history(rng, length):
         elif r < 0.84:
             ops.append({'m': 'set', 'now': now, 'k': rng.choice(QSPEC_ORDINARY), 'v': rng.choice(vals),
                         'ttl': rng.choice([None, None, 3]), 'tag': rng.choice([None, 't'])})
-        elif r < 0.94:
+        elif r < 0.88:
+            m = rng.choice(['add', 'touch', 'incr'])
+            if m == 'add':
+                ops.append({'m': 'add', 'now': now, 'k': rng.choice(QSPEC_ORDINARY), 'v': rng.choice(vals), 'ttl': rng.choice([None, 3]), 'tag': None})
+            elif m == 'touch':
+                ops.append({'m': 'touch', 'now': now, 'k': rng.choice(QSPEC_ORDINARY), 'ttl': rng.choice([None, 5])})
+            else:
+                ops.append({'m': 'incr', 'now': now, 'k': rng.choice(['cnt', 'cnt-2']), 'delta': rng.choice([1, -2]), 'default': rng.choice([0, 0, None])})
+        elif r < 0.95:
             m = rng.choice(['get', 'contains', 'pop', 'delitem', 'delete'])
-            ops.append({'m': m, 'now': now, 'k': rng.choice(QSPEC_ORDINARY)})
+            ops.append({'m': m, 'now': now, 'k': rng.choice(QSPEC_ORDINARY + ['cnt'])})
         else:
             m = rng.choice(['expire', 'evict', 'cull', 'clear'] if rng.random() < 0.8 else ['clear'])
             op = {'m': m, 'now': now}
@@ -262,7 +274,7 @@ def run(tier, seed, rng, known, replay):
         what = 'call #%d %s returns %s, the queue specification DC.QSpec returns %s' % (b['op_index'], b['line'][:90], b['impl'][:60], b['spec'][:60])
         r['violations'].append({'replay': {'property': 'C10', 'kind': 'spec-disagreement', 'cfg': h['cfg'], 'ops': base.tag(h['ops'][:b['op_index'] + 1]),
                                            'line': b['line'], 'impl': b['impl'], 'spec': b['spec'], 'acceptor': what,
-                                           'spec_part': 'DC.QSpec.step (lean/DC/Model/QSpec.lean); refinement theorem DC.Cache.qrun_refines_partial'},
+                                           'spec_part': 'DC.QSpec.step (lean/DC/Model/QSpec.lean); refinement theorem DC.Cache.qrun_refines'},
                                 'found_input': True, 'what': 'property violated on the implementation: ' + what})
     r['known'] = list(r['known']) + [k for k in rs['known'] if k not in r['known']]
     hists = hists + shists
